@@ -17,6 +17,7 @@ side conditions are exactly the excluded inputs, and `code_ge_2p31_malformed` /
 `details_lost_when_unmarshalable` say what happens on them.
 -/
 import GrpcProofs.Lemmas.Status
+import GrpcProofs.Lemmas.StatusProto
 namespace GrpcProofs.C10
 open GrpcModel.Status GrpcModel.Headers GrpcModel
 open GrpcModel.Base64 (Bytes)
@@ -26,8 +27,8 @@ open GrpcModel.Base64 (Bytes)
     * a code below 2^31 (0…16 and out-of-range codes up to 2147483647),
     * any message bytes when there are no details; valid UTF-8 message and detail type URLs when
       there are (a proto3 string cannot hold anything else),
-    * whose google.rpc.Status encoding round-trips through protobuf (`hp`; protobuf is trusted
-      base — `Lemmas.Status` does not prove it, the differential runs exercise it),
+    * whose google.rpc.Status encoding is shorter than 2^64 bytes (`hsz`; any Go slice is — the
+      protobuf round trip itself is proved for the Lean port of the wire format, `proto_roundtrip`),
     * and a handler that does not put `grpc-status-details-bin` into the trailer itself when it
       returns no details (`hu`),
     the client ends with exactly that code, the message with invalid UTF-8 replaced by U+FFFD, and
@@ -35,10 +36,11 @@ open GrpcModel.Base64 (Bytes)
 theorem status_roundtrip_partial (hs : Bool) (sub : Bytes) (st : Status) (tr : MD)
     (hc : st.code < 2147483648)
     (hv : st.details ≠ [] → StatusMsg.validUtf8 st.msg = true ∧ ∀ a ∈ st.details, StatusMsg.validUtf8 a.typeUrl = true)
-    (hp : st.details ≠ [] → unmarshal (marshalBody st) = some st)
+    (hsz : (marshalBody st).length < 2 ^ 64)
     (hu : st.details = [] → ∀ kv ∈ tr, kv.1 ≠ hDetailsBin) :
     endToEnd hs sub (.status st) tr = .status ⟨st.code, StatusMsg.sanitize st.msg, st.details⟩ :=
-  Lemmas.Status.endToEnd_roundtrip hs sub st tr hc hv hp hu
+  Lemmas.Status.endToEnd_roundtrip hs sub st tr hc hv
+    (fun hd => Lemmas.StatusProto.unmarshal_marshal st (by omega) (hv hd).1 (hv hd).2 hsz) hu
 
 /-- The full statement fails on codes ≥ 2^31 (suspected defect F11): written with
     `Itoa(int(uint32))`, parsed with `ParseInt(…, 10, 32)`. -/
@@ -111,10 +113,10 @@ theorem plain_error_unknown (hs : Bool) (sub : Bytes) (m : Bytes) (tr : MD) (hu 
 theorem paths_agree (sub : Bytes) (st : Status) (tr : MD)
     (hc : st.code < 2147483648)
     (hv : st.details ≠ [] → StatusMsg.validUtf8 st.msg = true ∧ ∀ a ∈ st.details, StatusMsg.validUtf8 a.typeUrl = true)
-    (hp : st.details ≠ [] → unmarshal (marshalBody st) = some st)
+    (hsz : (marshalBody st).length < 2 ^ 64)
     (hu : st.details = [] → ∀ kv ∈ tr, kv.1 ≠ hDetailsBin) :
     endToEnd true sub (.status st) tr = endToEnd false sub (.status st) tr := by
-  rw [status_roundtrip_partial true sub st tr hc hv hp hu, status_roundtrip_partial false sub st tr hc hv hp hu]
+  rw [status_roundtrip_partial true sub st tr hc hv hsz hu, status_roundtrip_partial false sub st tr hc hv hsz hu]
 
 /-- grpc-message: what the client decodes is the handler's text with every invalid UTF-8 byte
     replaced by U+FFFD — for every byte string (fast paths of both functions included). -/
@@ -137,6 +139,17 @@ theorem grpc_status_decimal (c : Nat) :
 /-- grpc-status-details-bin: `decodeBinHeader(encodeBinHeader(b)) = b` for all bytes. -/
 theorem details_bin_roundtrip (b : Bytes) : Base64.decodeBinHeader (Base64.encodeBinHeader b) = some b :=
   Lemmas.Base64.decodeBinHeader_encodeBinHeader b
+
+/-- google.rpc.Status survives proto.Marshal / proto.Unmarshal (as ported): every code (uint32
+    view, so negative int32 values included), valid-UTF-8 message and type URLs, any detail
+    values, any number of details. -/
+theorem proto_roundtrip (st : Status) (hc : st.code < 4294967296) (hm : StatusMsg.validUtf8 st.msg = true)
+    (hd : ∀ d ∈ st.details, StatusMsg.validUtf8 d.typeUrl = true) (hsz : (marshalBody st).length < 2 ^ 64) :
+    marshal st = some (marshalBody st) ∧ unmarshal (marshalBody st) = some st := by
+  refine ⟨?_, Lemmas.StatusProto.unmarshal_marshal st hc hm hd hsz⟩
+  unfold marshal
+  have : st.details.all (fun a => StatusMsg.validUtf8 a.typeUrl) = true := by rw [List.all_eq_true]; exact hd
+  simp [hm, this]
 
 /-- The literal header names the client's switch knows (regenerated from operateHeaders; a new
     `case` there breaks this and therefore the model's `scanField`). -/
